@@ -211,8 +211,10 @@ class LangGen:
                     if prev['rightField'] not in owned(prev['rightAsset']) and prev['leftField'] not in owned(prev['leftAsset']) \
                             and prev['leftField'] != prev['rightField']:
                         la, ra, lf, rf, nm = prev['rightAsset'], prev['leftAsset'], prev['leftField'], prev['rightField'], f'Twin{i}'
-            if r.random() < self.k.get('same_field_both_ends', 0.0) and la != ra:
-                rf = lf          # language-graph level only: no class can be generated for it (KF-C06-1)
+            if r.random() < self.k.get('same_field_both_ends', 0.0) and not (self.is_sub(la, ra) or self.is_sub(ra, la)):
+                # a fresh role name used on both ends, between two unrelated assets (so that navigation stays
+                # unambiguous); language-graph level only: no class can be generated for it (KF-C06-1)
+                lf = rf = f'p{fcount}'
             lm, rm = r.choice(MULTS), r.choice(MULTS)
             cand = {'name': nm, 'meta': {} if r.random() < 0.7 else {'user': 'assoc info'},
                     'leftAsset': la, 'leftField': lf, 'leftMultiplicity': {'min': lm[0], 'max': lm[1]},
